@@ -340,13 +340,68 @@ fn oracle(case: &[u8], obs: &mut Obs) -> Result<(), String> {
     Ok(())
 }
 
+/// Tables with more than 2^16 entries (integer entry types, so that every entry is distinct and cheap to make): counts
+/// and indices that do not fit 16 bits.
+fn oracle_big(case: &[u8], obs: &mut Obs) -> Result<(), String> {
+    let mut c = Choice::new(case);
+    let t = 4 + c.below(3) as usize;
+    let enc = ALL_ENC[c.below(4) as usize];
+    let use_any = c.bool();
+    let es = entsize(t, enc);
+    let n = (65536 * (1 + c.below(3)) as i64 + *c.pick(&[-2i64, -1, 0, 1, 2, 3, 255, 256, 257]) + if c.bool() { c.below(3000) as i64 } else { 0 }) as usize;
+    let residue = if c.bool() { c.below(es as u64) as usize } else { 0 };
+    let mut seed = c.u64() | 1;
+    let mask = if es == 8 { u64::MAX } else { (1u64 << (8 * es)) - 1 };
+    let mut vals: Vec<u64> = Vec::with_capacity(n);
+    let mut bytes: Vec<u8> = Vec::with_capacity(n * es + residue);
+    for i in 0..n {
+        let v = (verif_model::choice::splitmix(&mut seed) ^ i as u64) & mask;
+        vals.push(v);
+        if enc.le {
+            bytes.extend_from_slice(&v.to_le_bytes()[..es]);
+        } else {
+            bytes.extend_from_slice(&v.to_be_bytes()[8 - es..]);
+        }
+    }
+    for _ in 0..residue {
+        bytes.push(c.u8() | 1);
+    }
+    let mut script = vec![Op::Len, Op::IsEmpty, Op::Get(n), Op::Get(n - 1), Op::Get(65535), Op::Get(65536), Op::Get(65537), Op::Step(2), Op::Nth(65534), Op::Step(3), Op::Nth(n.saturating_sub(65536 + 20))];
+    for _ in 0..c.below(6) {
+        script.push(match c.below(5) {
+            0 => Op::Get(c.below(n as u64 + 2) as usize),
+            1 => Op::Adaptors(65530 + c.below(12) as usize, 1 + c.below(70000) as usize),
+            2 => Op::Adaptors(c.below(n as u64 + 2) as usize, 65536),
+            3 => Op::Nth(c.below(70000) as usize),
+            _ => Op::Get(n - c.below(4) as usize),
+        });
+    }
+    if c.bool() {
+        script.push(Op::Iter);
+    }
+    let class = class_of(enc);
+    let spec: u8 = if use_any { specs_for(enc.le)[1] } else { specs_for(enc.le)[0] };
+    let r = with_endian!(spec, |e| match t {
+        4 => run_script::<_, VersionIndex>(e, class, &bytes, n, &|i, v| v.0 as u64 == vals[i], &script, TYPES[t], obs),
+        5 => run_script::<_, u32>(e, class, &bytes, n, &|i, v| *v as u64 == vals[i], &script, TYPES[t], obs),
+        _ => run_script::<_, u64>(e, class, &bytes, n, &|i, v| *v == vals[i], &script, TYPES[t], obs),
+    });
+    r.map_err(|s| format!("{} {} : {}", enc.name(), SPEC_NAMES[spec as usize], s))?;
+    obs.label("more_than_65535_entries");
+    obs.label_if(residue != 0, "ragged");
+    obs.nontrivial();
+    obs.key = fnv64(&bytes[..4096]) ^ n as u64 ^ fnv64(format!("{:?}{}{}", script, t, enc.name()).as_bytes());
+    obs.describe(|| json!({"type": TYPES[t], "enc": enc.name(), "spec": SPEC_NAMES[spec as usize], "whole_entries": n, "trailing_bytes": residue, "script": format!("{:?}", script)}));
+    Ok(())
+}
+
 pub fn property() -> Property {
     Property {
         id: "C09",
         level: "exploration",
-        rule: "cases are (entry type in {SectionHeader,ProgramHeader,Symbol,Dyn,VersionIndex,u32,u64,Rel,Rela}, class, byte order, fixed or run-time spec, n<=40 entries encoded by the independent ELF writer from generated field values, 0..entsize-1 trailing bytes, an access script of len/is_empty/get(i)/iter/into_iter/interleaved-iterator steps, nth(k) on the advanced iterator, skip/step_by/count/last/fuse on fresh and partly consumed iterators, with i in 0..n+2, k*2^32+i and near usize::MAX incl. indices whose byte offset wraps); oracle: len==floor(bytes/ABI entsize), get(i) Ok iff i<n and equal to the encoded entry, iter and into_iter yield exactly n items with item i == get(i) == encoded entry, is_empty==(n==0), independent of order/repetition. Non-trivial: ragged byte length or an access at index len; distinct by (bytes, script) hash.",
+        rule: "cases are (entry type in {SectionHeader,ProgramHeader,Symbol,Dyn,VersionIndex,u32,u64,Rel,Rela}, class, byte order, fixed or run-time spec, n<=40 entries encoded by the independent ELF writer from generated field values, 0..entsize-1 trailing bytes, an access script of len/is_empty/get(i)/iter/into_iter/interleaved-iterator steps, nth(k) on the advanced iterator, skip/step_by/count/last/fuse on fresh and partly consumed iterators, with i in 0..n+2, k*2^32+i and near usize::MAX incl. indices whose byte offset wraps); oracle: len==floor(bytes/ABI entsize), get(i) Ok iff i<n and equal to the encoded entry, iter and into_iter yield exactly n items with item i == get(i) == encoded entry, is_empty==(n==0), independent of order/repetition. Non-trivial: ragged byte length or an access at index len; distinct by (bytes, script) hash. Subcheck big_tables: VersionIndex/u32/u64 tables of k*65536 + {-2..3, 255..257, 0..3000} pairwise distinct entries (k in 1..3), the same oracle with accesses at 65535/65536/65537/n-1/n, nth and skip/step_by distances above 2^16; every case counts as non-trivial.",
         assumptions: &["entry sizes are the ABI sizes from <elf.h> (writer self-check)"],
-        subs: vec![Sub::new("tables", oracle, 4096, 1_500_000, 40_000_000)],
+        subs: vec![Sub::new("tables", oracle, 4096, 1_500_000, 40_000_000), Sub::new("big_tables", oracle_big, 64, 1_500, 60_000).shrink(60)],
         extras: vec![],
     }
 }
